@@ -12,6 +12,7 @@ pub mod cmp;
 pub mod gen_;
 pub mod io;
 pub mod model;
+pub mod multi;
 pub mod span;
 
 pub use model::{Expect, FieldDef, Hdr, Num, Rec, Ty, Val};
